@@ -102,3 +102,20 @@ def matchable_family(n, count, seed=4242, density=4):
                 if rnd() % 10 < density: e.add((i, j))
         out.append(pat_bits(n, n, e))
     return list(dict.fromkeys(out))
+
+
+def hole(n, j):
+    """tridiagonal pattern whose column j keeps only its super-diagonal entry (row j-1): structurally nonsingular (columns j-1 and j are matched crosswise), but with
+    diagonal pivoting column j has no candidate row left when it is reached -- the zero-pivot / invented-fill-row path of the incomplete factorization"""
+    e = [(i, c) for i in range(n) for c in range(n) if abs(i - c) <= 1 and not (c == j and i >= j)]
+    return pat_bits(n, n, e)
+
+
+def hole2(n, p):
+    """tridiagonal pattern modified around columns p, p+1, p+2 = (p, q, r): column r keeps only its entry in row p, the sub-diagonal entries (q,p) and (r,q) are removed and (r,p)
+    is added. Structurally nonsingular (p and r matched crosswise). When (r,p) is numerically tiny the incomplete factorization drops it with supernode {p} (while column q is
+    processed), so column r reaches the pivot step with an empty L part although row r is still unpivoted: the invented-fill-row path of ?gsitrf"""
+    q, r = p + 1, p + 2
+    e = {(i, c) for i in range(n) for c in range(n) if abs(i - c) <= 1}
+    e -= {(q, p), (r, q)}; e = {(i, c) for (i, c) in e if c != r} | {(p, r), (r, p)}
+    return pat_bits(n, n, e)
